@@ -80,6 +80,15 @@ func (e *Engine) verifyFunc(key string) (res *FuncResult) {
 		v := st.symbolic(fv.Type(), "fv_"+fv.Name())
 		fr.locals[fv] = v
 		x.params[fv.Name()] = v
+		if capturedByRef(fn, fv) {
+			// the closure captured the variable itself: in contracts its name denotes the variable's value at entry
+			st.assume(Neq(v.T(), TZero))
+			st.nonnil[v.T().S] = true
+			val := st.load(v)
+			st.assume(typeConstraint(val.Typ, val.C))
+			st.assumeAllocated(val)
+			x.params[fv.Name()] = val
+		}
 	}
 	if fn.Signature.Recv() != nil && len(fn.Params) > 0 {
 		if _, isPtr := types.Unalias(fn.Params[0].Type()).Underlying().(*types.Pointer); isPtr {
@@ -244,7 +253,7 @@ func (x *Exec) frameObligations(st *State, env *Env) {
 
 // ---------- events ----------
 
-var observable = map[string]bool{"send": true, "sendmsg": true, "callfn": true, "chansend": true, "close": true}
+var observable = map[string]bool{"send": true, "sendmsg": true, "callfn": true, "chansend": true, "close": true, "WriteHeader": true, "ServeHTTP": true, "PostReceipt": true}
 
 func (x *Exec) isObservable(e Event) bool {
 	if observable[e.Kind] {
@@ -859,4 +868,27 @@ func flattenConj(t Term) []Term {
 		}
 	}
 	return []Term{t}
+}
+
+// capturedByRef: the free variable holds the address of a variable of the enclosing function.
+func capturedByRef(fn *ssa.Function, fv *ssa.FreeVar) bool {
+	pt, ok := types.Unalias(fv.Type()).Underlying().(*types.Pointer)
+	if !ok {
+		return false
+	}
+	for p := fn.Parent(); p != nil; p = p.Parent() {
+		for _, prm := range p.Params {
+			if prm.Name() == fv.Name() {
+				return types.Identical(pt.Elem(), prm.Type())
+			}
+		}
+		for _, b := range p.Blocks {
+			for _, in := range b.Instrs {
+				if a, ok := in.(*ssa.Alloc); ok && a.Comment == fv.Name() {
+					return types.Identical(a.Type(), fv.Type())
+				}
+			}
+		}
+	}
+	return false
 }
